@@ -64,6 +64,14 @@ def make_objective(name, np, ub, rettype):
         # a hard constraint: +inf on one side of a hyperplane through the box, the sphere elsewhere
         mid = 0.5 * float(ubc[0, 0]) if ubc.size else 0.0
         return lambda x: conv(np.inf) if float(np.asarray(x).reshape(-1)[0]) > mid else conv(np.sum(x ** 2))
+    if name == 'allinf':
+        # infeasible everywhere (a constraint penalty that no point of the box escapes)
+        return lambda x: conv(np.inf)
+    if name == 'nanpart':
+        # undefined (NaN) on one side of a hyperplane through the box — like a square root or logarithm of a coordinate that
+        # may be negative —, the sphere elsewhere
+        mid = 0.5 * float(ubc[0, 0]) if ubc.size else 0.0
+        return lambda x: conv(np.nan) if float(np.asarray(x).reshape(-1)[0]) < mid else conv(np.sum(x ** 2))
     if name == 'tiny':
         # every value (and so every improvement) is far below 1e-10: a strict improvement is one however small
         return lambda x: conv(1e-13 * np.sum((x - 0.25 * ubc) ** 2))
@@ -128,6 +136,16 @@ def make_box(rng, kind, nv):
         # integer lower bounds (an int list), fractional upper bounds on either side of zero
         lb = [rng.choice([-4, -3, -2, 0, 1]) for _ in range(nv)]
         return lb, [l + rng.choice([0.5, 1.5, 2.5]) for l in lb]
+    if kind == 'tinyscale':
+        # per-variable boxes that differ, on a scale far below any fixed tolerance
+        return [(1 + 4 * j) * 1e-9 for j in range(nv)], [(2 + 4 * j) * 1e-9 for j in range(nv)]
+    if kind == 'farscale':
+        # per-variable boxes that differ, far from the origin (differences tiny relative to the bounds)
+        return [1e8 + 2 * j for j in range(nv)], [1e8 + 2 * j + 1 for j in range(nv)]
+    if kind == 'nearequal':
+        return [1e5 + 0.5 * j for j in range(nv)], [1e5 + 0.5 * j + 0.5 for j in range(nv)]
+    if kind == 'tinybox':
+        return [1e-9] * nv, [2e-9] * nv
     if kind == 'intlist':
         return [-(j + 1) for j in range(nv)], [j + 2 for j in range(nv)]
     raise KeyError(kind)
@@ -684,7 +702,23 @@ def record_run(cfg):
                 if cfg['prior'].get('other_objective'):
                     # … or another objective (much smaller values everywhere): nothing computed for it may survive
                     pof = _shifted(of)
-                L['Opytimizer'](space=sp, optimizer=opt, function=L['Function'](pointer=pof)).start()
+                if cfg['prior'].get('abort_at'):
+                    # the earlier task was interrupted by its hook (early stopping / budget exhausted) in the middle of an
+                    # iteration; the recorded task resumes on the space as it was left
+                    class _Stop(Exception):
+                        pass
+                    cnt = [0]
+
+                    def stopper(o, s, f):
+                        cnt[0] += 1
+                        if cnt[0] > cfg['prior']['abort_at']:
+                            raise _Stop()
+                    try:
+                        L['Opytimizer'](space=sp, optimizer=opt, function=L['Function'](pointer=pof)).start(pre_evaluation_hook=stopper)
+                    except _Stop:
+                        pass
+                else:
+                    L['Opytimizer'](space=sp, optimizer=opt, function=L['Function'](pointer=pof)).start()
                 psp = None
             elif pr['space'] == 'tree':
                 psp = L['TreeSpace'](n_trees=pr['n_agents'], n_terminals=pr['n_terminals'], n_variables=pr['n_vars'],
